@@ -17,8 +17,9 @@
     the evaluator model does not cover.  A static error has no trace suffix (nothing was evaluated).
 
   The two token types (`Rsj.Lexer.Token`: bytes / scalar values / digits; `Rsj.Parser.Token`: the
-  driver's hex text) are connected by `convTokens`, which writes the payloads exactly as the
-  parser driver's token notation does (`I<hex>`, `N<hexdigits>_<exp>`, `T<hex>`, `B<hex>`).
+  driver's opaque payload strings) are connected by `convTokens`, which writes payloads that the
+  lowering reads back with TOTAL functions (`convKind`: texts as themselves, a number as the decimal
+  numeral of the bit pattern of its double), so that no decoding failure exists between the stages.
 -/
 import RsjModel.Lexer
 import RsjModel.Parser
@@ -87,17 +88,22 @@ def convSTok : Lexer.STok → Parser.STok
   | .RightBrace => .RightBrace
   | .Tilde => .Tilde
 
-/-- `none`: whitespace / comment (never in the output of `lexAll _ false`) -/
+/-- the text with these scalar values (identifier / operator bytes are ASCII) -/
+def textOf (cs : List Nat) : String := String.ofList (cs.map Char.ofNat)
+
+/-- `none`: whitespace / comment (never in the output of `lexAll _ false`).  Payloads are written so
+    that `Rsj.Lower` reads them back with total functions: texts as themselves, a number as the decimal
+    numeral of the bit pattern of its double. -/
 def convKind : Lexer.Kind → Option Parser.TokKind
   | .eof => some .eof
   | .whitespace => none
   | .comment => none
   | .simple k => some (.simple (convSTok k))
-  | .otherOp b => some (.otherOp (hexEnc b))
-  | .ident b => some (.ident (hexEnc b))
-  | .number d e => some (.number (hexEnc d ++ "_" ++ toString e))
-  | .string cs => some (.string (hexEnc (Lexer.utf8Encode cs)))
-  | .textBlock cs => some (.textBlock (hexEnc (Lexer.utf8Encode cs)))
+  | .otherOp b => some (.otherOp (textOf b))
+  | .ident b => some (.ident (textOf b))
+  | .number d e => some (.number (toString (Lower.numBits d e)))
+  | .string cs => some (.string (textOf cs))
+  | .textBlock cs => some (.textBlock (textOf cs))
 
 def convToken (t : Lexer.Token) : Option Parser.Token :=
   match convKind t.kind with
@@ -117,8 +123,8 @@ inductive Front where
   /-- a panic site of the parser / the model's fuel -/
   | parseFault (f : Parser.Fault)
   | unsupported (msg : String)
-  /-- a token payload not in driver notation, or a tree shape the parser never builds (unreachable from
-      `convTokens` + `Parser.parse`) -/
+  /-- a fault of the lowering: a tree shape the parser never builds (`LowerErr.malformed`; payload decoding
+      is total).  Never answered: `C01_front_no_lowering_fault` (RsjProps/C01Pipeline3.lean) -/
   | badPayload (what : String)
   | analyzeErr (e : Analyze.AErr)
   | ok (e : Core.Expr)
@@ -149,10 +155,16 @@ def lexErrLine (e : Lexer.LexErr) : String :=
   "err lex " ++ k.1 ++ " " ++
     strHex (toString e.start ++ ":" ++ toString e.stop ++ (match k.2 with | some d => ":" ++ d | none => ""))
 
+/-- the token found, in the notation of the parser driver (`I<hex>` / `O<hex>` for identifiers / unknown operators) -/
+def actShow : Parser.Actual → String
+  | .otherOp s => "O" ++ strHex s
+  | .ident s => "I" ++ strHex s
+  | a => a.show
+
 def parseErrLine (sp : Parser.Span) (ex : List Parser.Expected) (act : Parser.Actual) : String :=
   "err parse Expected " ++
     strHex (toString sp.start ++ ":" ++ toString sp.stop ++ ";" ++
-      (if ex.isEmpty then "-" else ",".intercalate (ex.map Parser.Expected.show)) ++ ";" ++ act.show)
+      (if ex.isEmpty then "-" else ",".intercalate (ex.map Parser.Expected.show)) ++ ";" ++ actShow act)
 
 /-- The answer line: `k` answers for an accepted program. -/
 def Front.answer (f : Front) (k : Core.Expr → String) : String :=
